@@ -43,17 +43,33 @@ LastValid  == IF N(V) = 0 THEN NULL ELSE V[N(V)]
 AnyTrue == \E k \in 1..N(V) : V[k] # 0
 AllTrue == \A k \in 1..N(V) : V[k] # 0
 
-DefVSum  == IF N(V) = 0 THEN ENull ELSE EInt(S(V))
-DefVMean == IF N(V) = 0 THEN ENull ELSE EQ(QN(S(V), N(V)))
-\* variance-type statistics need max(mp, 2) observations; a constant sample has variance 0
-Need(k) == Max2(mp, k)
-DefVVar  == IF N(V) < Need(2) THEN ENull ELSE EQ(QVar(V))
-DefVStd  == IF N(V) < Need(2) THEN ENull ELSE ESq(1, QVar(V))
-DefMeanOfMeanVar == IF N(V) < Max2(mp, 1) THEN ENull ELSE EQ(QN(S(V), N(V)))
-DefVSkew == IF N(V) < Need(3) THEN ENull ELSE DefSkew(V)
-DefVKurt == IF N(V) < Need(4) THEN ENull ELSE DefKurt(V)
-DefVMin  == IF N(V) = 0 THEN ENull ELSE EInt(SeqMin(V))
-DefVMax  == IF N(V) = 0 THEN ENull ELSE EInt(SeqMax(V))
+\* variance-type statistics need max(m, 2) observations; a constant sample has variance 0
+NeedOf(m, k) == Max2(m, k)
+Need(k) == NeedOf(mp, k)
+\* the scale-bearing aggregations as functions of the series (Laws3.tla states their homogeneity)
+AggKeys == {"vsum", "vmean", "vmean_var_mean", "vvar", "vstd", "vskew", "vkurt", "vmin", "vmax", "vfirst", "vlast"}
+AggOf(k, ser, m) ==
+    LET v == Sel(ser) IN
+    CASE k = "vsum"  -> IF N(v) = 0 THEN ENull ELSE EInt(S(v))
+      [] k = "vmean" -> IF N(v) = 0 THEN ENull ELSE EQ(QN(S(v), N(v)))
+      [] k = "vvar"  -> IF N(v) < NeedOf(m, 2) THEN ENull ELSE EQ(QVar(v))
+      [] k = "vstd"  -> IF N(v) < NeedOf(m, 2) THEN ENull ELSE ESq(1, QVar(v))
+      [] k = "vmean_var_mean" -> IF N(v) < Max2(m, 1) THEN ENull ELSE EQ(QN(S(v), N(v)))
+      [] k = "vskew" -> IF N(v) < NeedOf(m, 3) THEN ENull ELSE DefSkew(v)
+      [] k = "vkurt" -> IF N(v) < NeedOf(m, 4) THEN ENull ELSE DefKurt(v)
+      [] k = "vmin"  -> IF N(v) = 0 THEN ENull ELSE EInt(SeqMin(v))
+      [] k = "vmax"  -> IF N(v) = 0 THEN ENull ELSE EInt(SeqMax(v))
+      [] k = "vfirst" -> IF N(v) = 0 THEN ENull ELSE EInt(v[1])
+      [] k = "vlast"  -> IF N(v) = 0 THEN ENull ELSE EInt(v[N(v)])
+DefVSum  == AggOf("vsum", s, mp)
+DefVMean == AggOf("vmean", s, mp)
+DefVVar  == AggOf("vvar", s, mp)
+DefVStd  == AggOf("vstd", s, mp)
+DefMeanOfMeanVar == AggOf("vmean_var_mean", s, mp)
+DefVSkew == AggOf("vskew", s, mp)
+DefVKurt == AggOf("vkurt", s, mp)
+DefVMin  == AggOf("vmin", s, mp)
+DefVMax  == AggOf("vmax", s, mp)
 \* 0-based index (in s, nulls counted) of the FIRST minimum / maximum
 FirstPosOf(x) == CHOOSE p \in 1..Len(s) : s[p] = x /\ \A q \in 1..(p - 1) : s[q] # x
 DefVArgMin == IF N(V) = 0 THEN ENull ELSE EInt(FirstPosOf(SeqMin(V)) - 1)
@@ -62,8 +78,13 @@ DefVArgMax == IF N(V) = 0 THEN ENull ELSE EInt(FirstPosOf(SeqMax(V)) - 1)
 \* two series: pairwise deletion
 PA == PairSelA(s, t)
 PB == PairSelB(s, t)
-DefVCov  == IF N(PA) < Need(2) THEN ENull ELSE DefCov(PA, PB)
-DefVCorr == IF N(PA) < Need(2) THEN ENull ELSE DefCorr(PA, PB)
+Agg2Keys == {"vcov", "vcorr"}
+Agg2Of(k, a, b, m) ==
+    LET pa == PairSelA(a, b)  pb == PairSelB(a, b) IN
+    CASE k = "vcov"  -> IF N(pa) < NeedOf(m, 2) THEN ENull ELSE DefCov(pa, pb)
+      [] k = "vcorr" -> IF N(pa) < NeedOf(m, 2) THEN ENull ELSE DefCorr(pa, pb)
+DefVCov  == Agg2Of("vcov", s, t, mp)
+DefVCorr == Agg2Of("vcorr", s, t, mp)
 
 \* masked sum / mean: t is a mask over {0, 1, NULL}; an element counts when its mask is 1
 RECURSIVE MaskSel(_, _)
